@@ -399,8 +399,11 @@ fn main() {
         let rule_names: Vec<String> = rules.iter().map(|r| r.name.clone()).collect();
         // time limits: far away (the library's defaults), zero, or 5 s (never reached by these runs:
         // a TimeLimit stop would have to be justified by the recorder's own clock)
-        let time_mode = *["far", "far", "far", "zero", "mid"].choose(&mut rng).unwrap();
-        let time_limit_ms: u64 = match (kind, time_mode) { (_, "zero") => 0, (_, "mid") => 5_000, ("runner", _) => 60_000, _ => 1_000_000 };
+        let time_mode = *["far", "far", "far", "zero", "mid", "sub", "frac"].choose(&mut rng).unwrap();
+        // "sub" / "frac": limits that are not a whole number of seconds (900 ms, 1.7 s) - rounding them must not end a run early
+        let time_limit_ms: u64 = match (kind, time_mode) { (_, "zero") => 0, (_, "mid") => 5_000, (_, "sub") => 900, (_, "frac") => 1_700, ("runner", _) => 60_000, _ => 1_000_000 };
+        // run_eqsat takes its limit in whole seconds: what is logged is what is passed
+        let time_limit_ms = if kind == "runner" || kind == "manual" { time_limit_ms } else { time_limit_ms / 1000 * 1000 };
         let hook_sleep = std::time::Duration::from_millis(if time_mode == "far" { 0 } else { 3 });
         // rules written AFTER the e-graph was filled, their explicit slots named like slots the
         // classes already use internally
